@@ -30,6 +30,8 @@ type Solver struct {
 	kind    SolverKind
 	cmd     *exec.Cmd
 	in      io.WriteCloser
+	w       *bufio.Writer
+	dead    bool
 	out     *bufio.Reader
 	Calls   int
 	Dur     time.Duration
@@ -53,13 +55,14 @@ func NewSolver(kind SolverKind, timeoutMs int) (*Solver, error) {
 	if err := cmd.Start(); err != nil {
 		return nil, err
 	}
-	s := &Solver{kind: kind, cmd: cmd, in: in, out: bufio.NewReaderSize(out, 1<<16), timeout: timeoutMs}
-	s.Send("(set-option :print-success false)")
-	if strings.HasPrefix(kind.Name, "z3") {
-		s.Send(fmt.Sprintf("(set-option :timeout %d)", timeoutMs))
-	} else {
-		s.Send(fmt.Sprintf("(set-option :tlimit-per %d)", timeoutMs))
+	s := &Solver{kind: kind, cmd: cmd, in: in, w: bufio.NewWriterSize(in, 1<<16), out: bufio.NewReaderSize(out, 1<<16), timeout: timeoutMs}
+	if d := os.Getenv("GOSYM_TRANSCRIPT"); d != "" {
+		f, _ := os.CreateTemp(d, "solver-*.smt2")
+		s.log = f
 	}
+	s.Send("(set-option :print-success false)")
+	// no solver-side timeout: z3 spawns a timer thread per check (costly here); the
+	// deadline is enforced from this side by killing the process (see readUntilMarker).
 	s.Send("(set-logic ALL)")
 	return s, nil
 }
@@ -68,7 +71,8 @@ func (s *Solver) Close() {
 	if s == nil || s.cmd == nil {
 		return
 	}
-	io.WriteString(s.in, "(exit)\n")
+	s.w.WriteString("(exit)\n")
+	s.w.Flush()
 	s.in.Close()
 	done := make(chan struct{})
 	go func() { s.cmd.Wait(); close(done) }()
@@ -84,13 +88,26 @@ func (s *Solver) Send(x string) {
 	if s.log != nil {
 		io.WriteString(s.log, x+"\n")
 	}
-	io.WriteString(s.in, x+"\n")
+	if s.dead {
+		return
+	}
+	s.w.WriteString(x)
+	s.w.WriteByte('\n')
 }
 
 // sync reads everything up to an echo marker, returning the lines.
 func (s *Solver) readUntilMarker() []string {
 	marker := "@@sync@@"
-	io.WriteString(s.in, "(echo \""+marker+"\")\n")
+	if s.dead {
+		return []string{"(error \"solver was killed after a timeout\")"}
+	}
+	s.w.WriteString("(echo \"" + marker + "\")\n")
+	s.w.Flush()
+	timer := time.AfterFunc(time.Duration(s.timeout)*time.Millisecond, func() {
+		s.dead = true
+		s.cmd.Process.Kill()
+	})
+	defer timer.Stop()
 	var lines []string
 	for {
 		l, err := s.out.ReadString('\n')
